@@ -600,7 +600,8 @@ func (q *checker) bcheckAssignment(lhs *a.Expr, op t.ID, rhs *a.Expr) error {
 				}
 				return x, nil
 			}
-			if xRHS.Mentions(lhs) {
+			if xRHS.Mentions(lhs) || rhs.Mentions(lhs) {
+				// For "x -= x", the RHS refers to the old value of x.
 				return nil, nil
 			}
 			switch op {
